@@ -155,6 +155,53 @@ let judge_static ins outs =
                            (str urlpath) (String.escaped p) (str key))))
   | _ -> VDisagree "bad STATIC case"
 
+(* ROOT cases: the configured root is an input; the model keeps
+   configured_root raw (= path.Clean) as static.NewModifier does *)
+let judge_root ins outs =
+  match ins, outs with
+  | _, ["BADREQ"] -> VOk false
+  | [_; _via; _; _; st0; _], _ ->
+      let st0 = z_of_dec st0 in
+      let (env, rest) = kv outs in
+      let hdr = chars_of_hex (List.assoc "hdr" env) and low = chars_of_hex (List.assoc "low" env) in
+      let urlpath = chars_of_hex (List.assoc "path" env) in
+      let rawroot = chars_of_hex (List.assoc "root" env) in
+      let lower = mk_lower hdr low in
+      let (key, res) =
+        match String.split_on_char ':' (List.assoc "fs" env) with
+        | [k; "notexist"] -> (chars_of_hex k, FNotExist)
+        | [k; "perm"] -> (chars_of_hex k, FPerm)
+        | [k; "other"] -> (chars_of_hex k, FOther)
+        | [k; "dir"] -> (chars_of_hex k, FDir)
+        | [k; "file"; d; ct] -> (chars_of_hex k, FFile (chars_of_hex d, chars_of_hex ct))
+        | _ -> failwith "bad fs token" in
+      let fs p = if p = key then res else raise (Table_miss (string_of_chars p)) in
+      (match (try Some (parse_result rest) with Toobig -> None) with
+       | None -> VPropfail ("never_outside_content", "body longer than 1 MiB")
+       | Some obs0 ->
+           let obs = match res, obs0 with
+             | FDir, (RErr _ | RDir | RStatusOnly _) -> RDir
+             | FDir, Resp r when r.r_body = [] -> RDir
+             | _ -> obs0 in
+           (try
+              let want = static_resp_cfg lower fs rawroot [] (boundary_of obs) st0 urlpath hdr in
+              let want = match res, want with (FPerm | FOther), RErr _ -> obs | _ -> want in
+              match static_clause_cfg lower fs rawroot [] st0 urlpath hdr obs with
+              | Some c ->
+                  VPropfail (clause_name c,
+                             Printf.sprintf "root=\"%s\" (kept as \"%s\") path=\"%s\" must-resolve-to=\"%s\" range=\"%s\" got{%s} model{%s}"
+                               (str rawroot) (str (configured_root rawroot)) (str urlpath) (str key) (str hdr)
+                               (pr_result obs) (pr_result want))
+              | None ->
+                  if not (result_eqb want obs) then
+                    VDisagree (Printf.sprintf "root=\"%s\" path=\"%s\" range=\"%s\" got{%s} model{%s}"
+                                 (str rawroot) (str urlpath) (str hdr) (pr_result obs) (pr_result want))
+                  else VOk true
+            with Table_miss p ->
+              VDisagree (Printf.sprintf "root=\"%s\" path: model resolves \"%s\" to \"%s\", path.Clean+filepath.Join to \"%s\""
+                           (str rawroot) (str urlpath) (String.escaped p) (str key))))
+  | _ -> VDisagree "bad ROOT case"
+
 let judge_std ins outs =
   let a i = chars_of_hex (List.nth ins i) in
   match ins, outs with
@@ -183,6 +230,7 @@ let judge _name ins outs =
   match ins with
   | ("BODY" | "BODYW") :: _ -> judge_body ins outs
   | "STATIC" :: _ -> judge_static ins outs
+  | "ROOT" :: _ -> judge_root ins outs
   | _ -> judge_std ins outs
 
 (* Same protocol as common.ml's run_driver, but at most [cap] verdict lines
